@@ -63,10 +63,15 @@ std::shared_ptr<ISource> EntityWithSourcesHDF5::getSource(const std::string &nam
 
     if (!util::looksLikeUUID(name_or_id)) {
         Block tmp(entity_block);
+        // source names are unique per parent only: take the source of that name which is attached here
         auto found = tmp.findSources(util::NameFilter<Source>(name_or_id));
 
-        if (!found.empty())
-            id = found.front().id();
+        for (const auto &candidate : found) {
+            if (hasSource(candidate.id())) {
+                id = candidate.id();
+                break;
+            }
+        }
     }
 
     if (g && hasSource(id)) {
